@@ -121,6 +121,19 @@ def _restore(reg, snap):
     reg._unit_system_id = snap[2]
 
 
+def _stutter(objs):
+    """Registry.tla Stutter: print / hash / copy every Unit created so far.  By the property none of this may matter."""
+    import copy as _copy
+    import pickle as _pickle
+
+    for u, _bv, _dm, _ex in objs:
+        for f in (str, repr, hash, lambda x: x.copy(), lambda x: x.copy(deep=True), lambda x: _copy.copy(x), lambda x: x.latex_repr, lambda x: _pickle.loads(_pickle.dumps(x)), lambda x: (2.0 * x), lambda x: str(2.0 * x)):
+            try:
+                f(u)
+            except Exception:  # noqa: BLE001 - a probe that refuses is still a no-op
+                pass
+
+
 def step(reg, e, objs):
     U = _U
     dim = {"L": U["dims"].length, "T": U["dims"].time}
@@ -159,6 +172,7 @@ def step(reg, e, objs):
     except Exception as ex:  # noqa: BLE001
         obs = {"k": "raise"}
         exc = type(ex).__name__
+    _stutter(objs)
     out = dict(e)
     out["obs"] = obs
     out["exc"] = exc or ""
